@@ -25,7 +25,7 @@ EXTENDS RouteRef, TLC
 CONSTANTS Quick,       \* TRUE: reduced family for the quick tier (3 methods, deeper levels <= 1 handler)
           MaxSeg,      \* request = at most MaxSeg segments
           MaxDepth,    \* nesting depth explored by the dispatch machine
-          Mut          \* "none" | "search" | "reverse" | "icase" | "wrongparam" | "dollar"  (seeded faults, self-test)
+          Mut          \* "none" | "search" | "reverse" | "icase" | "wrongparam" | "dollar" | "approot"  (seeded faults, self-test)
                        \*   "dollar": the internal end anchor is "$" (also matches before a final newline) instead of "\z";
                        \*   only the capture-less regex_match overload is affected (the other one re-checks the span)
 
@@ -190,9 +190,21 @@ ParamLists(ge) == IF ge = <<>> THEN {<<>>} ELSE { <<x>> \o r : x \in Samples(ge[
 MountT == <<[l |-> sa], [p |-> 1]>>
 Shadows == {<<>>} \cup { <<[t |-> "h", id |-> 99, pat |-> HPats[i], meth |-> NoMeth, sel |-> <<>>]>> : i \in {1, 3, 6} }
 
-Chain(dn, tgt, sel, shadow) ==      \* dn nodes; node i+1 is mounted in node i; the target handler lives in node dn
+\* dn nodes; node i+1 is reached through a mount of node i; the target handler lives in node dn.
+\* wire[i] says how node i (i > 1) is wired into node i-1:
+\*   "full"   add(app,name,url,regex,part): application + mapper + dispatcher hierarchy
+\*   "nomap"  add(app,regex,part) only: no mapper link - node i is the top of its own mapper hierarchy
+\*            (an unnamed front application above a named hierarchy); its root string is the mount path
+\*   "noapp"  mapper().mount + dispatcher().mount without add(): no application-hierarchy link
+RECURSIVE Path(_)
+Path(n) == IF n = 0 THEN <<>> ELSE sa \o Path(n - 1)
+Chain(dn, tgt, sel, shadow, wire) ==
     [i \in 1..dn |->
-        [parent |-> i - 1, mname |-> IF i = 1 THEN "" ELSE "c", mt |-> IF i = 1 THEN <<>> ELSE MountT,
+        [parent |-> i - 1,
+         mparent |-> IF i > 1 /\ wire[i] # "nomap" THEN i - 1 ELSE 0,
+         aparent |-> IF i > 1 /\ wire[i] # "noapp" THEN i - 1 ELSE 0,
+         mroot |-> IF i > 1 /\ wire[i] = "nomap" THEN Path(i - 1) ELSE <<>>,
+         mname |-> IF i > 1 /\ wire[i] # "nomap" THEN "c" ELSE "", mt |-> IF i > 1 /\ wire[i] # "nomap" THEN MountT ELSE <<>>,
          opts |-> (IF i = 1 THEN shadow ELSE <<>>) \o
                   (IF i < dn THEN <<[t |-> "m", child |-> i + 1, pat |-> MPats[1], sel |-> 1]>>
                    ELSE <<[t |-> "h", id |-> 7, pat |-> tgt, meth |-> NoMeth, sel |-> sel]>>),
@@ -201,37 +213,55 @@ Chain(dn, tgt, sel, shadow) ==      \* dn nodes; node i+1 is mounted in node i; 
 VARIABLE mcase
 allvars == <<vars, mcase>>
 
-KeyForms(dn, app) ==
-    { [abs |-> TRUE,  comps |-> [i \in 1..dn |-> IF i = dn THEN "k" ELSE "c"]],
-      [abs |-> FALSE, comps |-> [i \in 1..(dn - app + 1) |-> IF i = dn - app + 1 THEN "k" ELSE "c"]],
-      [abs |-> FALSE, comps |-> <<".">> \o [i \in 1..(dn - app + 1) |-> IF i = dn - app + 1 THEN "k" ELSE "c"]] }
-    \cup (IF app = dn /\ dn > 1 THEN { [abs |-> FALSE, comps |-> <<"..", "c", "k">>] } ELSE {})
+\* keys that name the target (node dn, key "k") as seen from node app; top = top of dn's mapper hierarchy
+Names(n) == [i \in 1..(n + 1) |-> IF i = n + 1 THEN "k" ELSE "c"]
+KeyForms(dn, app, top) ==
+    { [abs |-> TRUE,  comps |-> Names(dn - top)],
+      [abs |-> FALSE, comps |-> Names(dn - app)],
+      [abs |-> FALSE, comps |-> <<".">> \o Names(dn - app)] }
+    \cup (IF app = dn /\ dn > top THEN { [abs |-> FALSE, comps |-> <<"..", "c", "k">>] } ELSE {})
+
+Wires(dn) == IF dn = 1 THEN {<<"-">>}
+             ELSE IF dn = 2 THEN { <<"-", a>> : a \in {"full", "nomap", "noapp"} }
+             ELSE { <<"-", a, b>> : a \in {"full", "nomap", "noapp"}, b \in {"full", "nomap", "noapp"} }
 
 \* (URLs of mounted children must start with "/": pattern 6 only at the root)
 InitMap ==
     /\ mode = "map"
     /\ meth = GETb /\ path = <<>> /\ depth = 0 /\ opts = <<>> /\ idx = 0 /\ out = "done" /\ hit = NoHit /\ taken = NoTaken
-    /\ \E dn \in 1..3 : \E pi \in (IF dn = 1 THEN 1..Len(HPats) ELSE 1..5) : \E rv \in BOOLEAN : \E sh \in Shadows : \E app \in 1..dn :
+    /\ \E dn \in 1..3 : \E pi \in (IF dn = 1 THEN 1..Len(HPats) ELSE 1..5) : \E rv \in BOOLEAN : \E sh \in Shadows : \E wire \in Wires(dn) :
          LET tgt == HPats[pi]
              sel == IF rv THEN Rev(NGroups(tgt)) ELSE Ident(NGroups(tgt))
-         IN \E kf \in KeyForms(dn, app) : \E ps \in ParamLists(GroupEls(tgt)) :
-              mcase = [cfg |-> Chain(dn, tgt, sel, sh), dn |-> dn, app |-> app, key |-> kf, params |-> ps, sel |-> sel]
+             cf == Chain(dn, tgt, sel, sh, wire)
+             top == RootOf(cf, dn)
+         IN \E app \in top..dn : \E kf \in KeyForms(dn, app, top) : \E ps \in ParamLists(GroupEls(tgt)) :
+              mcase = [cfg |-> cf, dn |-> dn, app |-> app, key |-> kf, params |-> ps, sel |-> sel]
 
 \* the mapper mechanism: url_mapper::data::map - the child's URL is streamed into the parent's entry
 \* registered under the child's name (one parameter); seeded fault: the parent gets the child's
 \* first parameter instead of the child's URL
 RECURSIVE MechClimb(_, _, _, _)
 MechClimb(cfg, node, url, params) ==
-    IF cfg[node].parent = 0 THEN url
-    ELSE MechClimb(cfg, cfg[node].parent,
+    IF cfg[node].mparent = 0 THEN url
+    ELSE MechClimb(cfg, cfg[node].mparent,
                    Fill(cfg[node].mt, <<IF Mut = "wrongparam" /\ params # <<>> THEN params[1] ELSE url>>), params)
 
+\* url_mapper::topmost(): walks the mapper parents to the top.  Seeded fault "approot": one mapper hop,
+\* then application::root() - the add()/attach() hierarchy - which differs as soon as a level is wired
+\* without a mapper link ("nomap") or without add() ("noapp")
+RECURSIVE AppRoot(_, _)
+AppRoot(cfg, n) == IF cfg[n].aparent = 0 THEN n ELSE AppRoot(cfg, cfg[n].aparent)
+MechTop(cfg, n) == IF Mut = "approot" THEN (IF cfg[n].mparent = 0 THEN n ELSE AppRoot(cfg, cfg[n].mparent)) ELSE RootOf(cfg, n)
+
 MechMap(c) ==
-    LET w == MapUrl(c.cfg, c.app, c.key.abs, c.key.comps, c.params)
-    IN IF ~w.ok THEN w
+    LET start == IF c.key.abs THEN MechTop(c.cfg, c.app) ELSE c.app
+        w == Walk(c.cfg, start, c.key.comps, 1)
+    IN IF ~w.ok THEN NoUrl
        ELSE LET ks == c.cfg[w.node].keys
-                i == CHOOSE i \in 1..Len(ks) : ks[i].key = w.key /\ ks[i].ar = Len(c.params)
-            IN [w EXCEPT !.url = MechClimb(c.cfg, w.node, Fill(ks[i].t, c.params), c.params)]
+                KS == { i \in 1..Len(ks) : ks[i].key = w.key /\ ks[i].ar = Len(c.params) }
+            IN IF KS = {} THEN NoUrl
+               ELSE [ok |-> TRUE, node |-> w.node, key |-> w.key,
+                     url |-> MechClimb(c.cfg, w.node, Fill(ks[CHOOSE i \in KS : TRUE].t, c.params), c.params)]
 
 \* walk the intended path of the URL: "reached" | "shadowed" | "broken"
 RECURSIVE Intended(_, _, _, _)
@@ -249,11 +279,12 @@ MapThenRoute ==
         LET c == mcase
             u == MechMap(c)
             want == Sel(<<>>, c.params, c.sel)
+            full == c.cfg[RootOf(c.cfg, c.dn)].mroot \o u.url          \* the mapper top prepends its root string
         IN /\ u.ok /\ u.node = c.dn
            /\ u.url = MapUrl(c.cfg, c.app, c.key.abs, c.key.comps, c.params).url
-           /\ Intended(c.cfg, 1, u.url, want) \in {"reached", "shadowed"}
-           /\ (Intended(c.cfg, 1, u.url, want) = "reached" =>
-                 Route(c.cfg, 1, "GET", u.url) = [hit |-> TRUE, app |-> c.dn, id |-> 7, args |-> want])
+           /\ Intended(c.cfg, 1, full, want) \in {"reached", "shadowed"}
+           /\ (Intended(c.cfg, 1, full, want) = "reached" =>
+                 Route(c.cfg, 1, "GET", full) = [hit |-> TRUE, app |-> c.dn, id |-> 7, args |-> want])
 
 \* ------------------------------------------------------------ mount points (applications pool)
 \* mount_point::match: host, the non-selected part and a selected part with group 0 go through the
